@@ -2,6 +2,6 @@
    Only ExtrOcamlBasic's directives are used; N, Z, positive, nat stay the
    extracted inductive types. *)
 From Coq Require Extraction ExtrOcamlBasic.
-From Econf Require Import Scenario.
+From Econf Require Import Scenario Grammar.
 Extraction Language OCaml.
-Extraction "model.ml" step run bs err_code all_errs.
+Extraction "model.ml" step run err_code all_errs render wf_file agrees expected keyfile_of_read.
